@@ -677,6 +677,17 @@ class ImplFeat(ImplViews):
         ]
         return " | ".join(parts)
 
+    def cmd_funsub(self, ts):
+        self._sync_heap()
+        k = int(ts[0])
+        if k >= len(self.fheap):
+            return "raise"
+        try:
+            self.dispatcher.unsubscribe(self.fheap[k])
+        except Exception:  # pylint: disable=broad-except
+            return "raise"
+        return "ok"
+
     def cmd_fsnap(self, ts):
         self._sync_heap()
         ids = [str(self._fid(s)) for s in self.dispatcher.subscribers]
